@@ -1,7 +1,10 @@
 package main
 
 import (
+	"encoding/hex"
 	"fmt"
+
+	gethcommon "github.com/ethereum/go-ethereum/common"
 	"math/big"
 	"os"
 	"sort"
@@ -75,15 +78,16 @@ type Monitor struct {
 	holders   map[string]*big.Int
 	timeoutMs uint64
 	// ghost state
-	debits      map[string]debit  // chain/id -> hub units taken from the sender
-	terminal    map[string]string // chain/id -> "executed" | "refunded"
-	everLive    map[string]bool
-	custody     map[string]*big.Int // chain/extToken -> external units locked
-	statusOf    map[string]int
-	lastBankBad bool
-	obefore *oracleSnap
-	pclaims []oclaim
-	hclaims []oclaim
+	debits               map[string]debit  // chain/id -> hub units taken from the sender
+	terminal             map[string]string // chain/id -> "executed" | "refunded"
+	everLive             map[string]bool
+	custody              map[string]*big.Int // chain/extToken -> external units locked
+	statusOf             map[string]int
+	lastBankBad          bool
+	lastHash, lastHashOp string
+	obefore              *oracleSnap
+	pclaims              []oclaim
+	hclaims              []oclaim
 }
 
 func NewMonitor(prop string, history int) *Monitor {
@@ -289,6 +293,25 @@ func (m *Monitor) Before(g *Gen, line string) {
 }
 
 func (m *Monitor) After(g *Gen, line, out string) {
+	if m.prop == "C14" {
+		w := strings.Fields(line)
+		if len(w) > 0 && w[0] == "hash" {
+			if m.lastHash != "" && g.pair[0] != "" && m.lastHashOp != line {
+				if m.lastHash == out {
+					m.report(g, "collision("+g.pair[0]+","+g.pair[1]+")", fmt.Sprintf("events %q and %q have the same claim identifier %s", m.lastHashOp, line, out))
+				}
+				m.lastHash, m.lastHashOp = "", ""
+				g.pair = [2]string{}
+			} else {
+				m.lastHash, m.lastHashOp = out, line
+			}
+		}
+		return
+	}
+	if m.prop == "C07" {
+		m.checkC07(g, strings.Fields(line), out)
+		return
+	}
 	if m.prop == "C18" {
 		m.oracleAfter(g, strings.Fields(line), out)
 		return
@@ -1452,4 +1475,55 @@ func (m *Monitor) checkVotes(g *Gen, w []string, out string, b, a *snapshot) {
 			}
 		}
 	}
+}
+
+// ---------------------------------------------------------------- C07: signatures over checkpoints
+
+// For a checkpoint digest produced by the real code: a signature made with NewEthereumSignature
+// verifies for the signer's address and for no other address or digest.
+func (m *Monitor) checkC07(g *Gen, w []string, out string) {
+	if len(w) == 0 || (w[0] != "ckpt_set" && w[0] != "ckpt_batch") || out == "panic" {
+		return
+	}
+	digest, err := hexDecode(out)
+	if err != nil || len(digest) != 32 {
+		m.report(g, "checkpoint-not-32-bytes", out)
+		return
+	}
+	k := ethKeys[g.rng.Intn(len(ethKeys))]
+	addr := gethcommon.HexToAddress(ethAddrs[indexOfKey(k)])
+	sig, err := types.NewEthereumSignature(digest, k)
+	if err != nil {
+		m.report(g, "signing-failed", err.Error())
+		return
+	}
+	if err := types.ValidateEthereumSignature(digest, sig, addr); err != nil {
+		m.report(g, "own-signature-rejected", err.Error())
+	}
+	other := gethcommon.HexToAddress(ethAddrs[(indexOfKey(k)+1)%len(ethAddrs)])
+	if err := types.ValidateEthereumSignature(digest, sig, other); err == nil {
+		m.report(g, "signature-accepted-for-other-address", out)
+	}
+	d2 := append([]byte{}, digest...)
+	d2[31] ^= 1
+	if err := types.ValidateEthereumSignature(d2, sig, addr); err == nil {
+		m.report(g, "signature-accepted-for-other-digest", out)
+	}
+	// the 27/28 form of v is accepted as well
+	s2 := append([]byte{}, sig...)
+	s2[64] += 27
+	if err := types.ValidateEthereumSignature(digest, s2, addr); err != nil {
+		m.report(g, "v-27-28-form-rejected", err.Error())
+	}
+}
+
+func hexDecode(s string) ([]byte, error) { return hex.DecodeString(s) }
+
+func indexOfKey(k interface{}) int {
+	for i := range ethKeys {
+		if interface{}(ethKeys[i]) == k {
+			return i
+		}
+	}
+	return 0
 }
